@@ -13,7 +13,16 @@ pub struct TypeId(pub ItemId);
 #[verifier::external_body] pub struct Piece { _p: core::marker::PhantomData<()> }   // (String, Vec<TokenStream>)
 #[verifier::external_body] pub struct BindgenContext { _p: core::marker::PhantomData<()> }
 #[verifier::external_body] pub struct Item { _p: core::marker::PhantomData<()> }
+impl TypeId { pub fn item(self) -> (r: ItemId) ensures r == self.0 { self.0 } }
+#[verifier::external_body] pub struct ItemSet { _p: core::marker::PhantomData<()> }
+impl ItemSet {
+    pub uninterp spec fn view(&self) -> Set<ItemId>;
+    #[verifier::external_body] pub fn contains(&self, k: &ItemId) -> (r: bool) ensures r == self.view().contains(*k) { unimplemented!() }
+}
 impl BindgenContext {
+    // the items that will be generated (env completeness: the other way code in this file could ask "is it blocklisted")
+    pub uninterp spec fn s_allowlisted(&self) -> ItemSet;
+    #[verifier::external_body] pub fn allowlisted_items(&self) -> (r: &ItemSet) ensures *r == self.s_allowlisted() { unimplemented!() }
     pub uninterp spec fn s_item(&self, id: TypeId) -> Item;
     #[verifier::external_body] pub fn resolve_item(&self, id: TypeId) -> (r: &Item) ensures *r == self.s_item(id) { unimplemented!() }
 }
@@ -30,5 +39,47 @@ impl Item {
 // the nested fn debug_print(name, &quote! { #name_ident }): prints the member with {:?}
 pub uninterp spec fn prints_member(p: Piece) -> bool;
 #[verifier::external_body] pub fn debug_print_member(name: &str, name_ident: &Tok) -> (r: Option<Piece>) ensures r.is_some(), prints_member(r.unwrap()) { unimplemented!() }
+
+// ---- BitfieldUnit::impl_debug: the hand-written Debug impl reads each named bit-field through its getter
+#[verifier::external_body] pub struct FmtString { _p: core::marker::PhantomData<()> }     // String (the format string; its text is not under contract)
+impl FmtString {
+    #[verifier::external_body] pub fn new() -> (r: FmtString) { unimplemented!() }
+    #[verifier::external_body] pub fn push_str(&mut self, s: &str) { unimplemented!() }
+}
+// `let _ = write!(format_string, "{bitfield_name} : {{:?}}");`
+#[verifier::external_body] pub fn fmt_push_member(f: &mut FmtString, name: &str) { unimplemented!() }
+#[verifier::external_body] pub struct Bitfield { _p: core::marker::PhantomData<()> }
+impl Bitfield {
+    pub uninterp spec fn s_name(&self) -> Option<Seq<char>>;
+    pub uninterp spec fn s_getter_name(&self) -> Seq<char>;
+    pub uninterp spec fn s_setter_name(&self) -> Seq<char>;
+    #[verifier::external_body] pub fn name(&self) -> (r: Option<&str>) ensures r.is_some() == self.s_name().is_some(), r.is_some() ==> r.unwrap()@ == self.s_name().unwrap() { unimplemented!() }
+    #[verifier::external_body] pub fn getter_name(&self) -> (r: &str) ensures r@ == self.s_getter_name() { unimplemented!() }
+    #[verifier::external_body] pub fn setter_name(&self) -> (r: &str) ensures r@ == self.s_setter_name() { unimplemented!() }
+}
+#[verifier::external_body] pub struct BitfieldUnit { _p: core::marker::PhantomData<()> }
+impl BitfieldUnit {
+    pub uninterp spec fn s_bitfields(&self) -> Seq<Bitfield>;
+    #[verifier::external_body] pub fn bitfields(&self) -> (r: &[Bitfield]) ensures r@ == self.s_bitfields() { unimplemented!() }
+}
+pub uninterp spec fn ident_raw(name: Seq<char>) -> Tok;
+impl BindgenContext {
+    #[verifier::external_body] pub fn rust_ident_raw(&self, name: &str) -> (r: Tok) ensures r == ident_raw(name@) { unimplemented!() }
+    #[verifier::external_body] pub fn rust_ident(&self, name: &str) -> (r: Tok) { unimplemented!() }
+}
+// quote! { self.#name_ident () }: a call of the method of that name on self
+pub uninterp spec fn calls_method(t: Tok) -> Option<Tok>;
+#[verifier::external_body] pub fn q_call_method_on_self(name_ident: &Tok) -> (r: Tok) ensures calls_method(r) == Some(*name_ident) { unimplemented!() }
+// `for (i, x) in xs.iter().enumerate()`: position + element (rule R13)
+#[verifier::external_body] pub struct EnumCursor<'a> { _p: core::marker::PhantomData<&'a ()> }
+impl<'a> EnumCursor<'a> {
+    pub uninterp spec fn all(&self) -> Seq<Bitfield>;
+    pub uninterp spec fn pos(&self) -> int;
+    #[verifier::external_body] pub fn new(v: &'a [Bitfield]) -> (r: EnumCursor<'a>) ensures r.all() == v@, r.pos() == 0 { unimplemented!() }
+    #[verifier::external_body] pub fn has_next(&self) -> (r: bool) ensures r == (self.pos() < self.all().len()), 0 <= self.pos() <= self.all().len() { unimplemented!() }
+    #[verifier::external_body] pub fn next_pair(&mut self) -> (r: (usize, &'a Bitfield))
+        requires old(self).pos() < old(self).all().len(),
+        ensures r.0 == old(self).pos(), *r.1 == old(self).all()[old(self).pos()], final(self).pos() == old(self).pos() + 1, final(self).all() == old(self).all() { unimplemented!() }
+}
 
 } // verus!
